@@ -300,6 +300,7 @@ def main(argv=None):
 
     known, fixed = load_known(prop)
     violations, known_hits, degraded, checker_errors = [], [], [], []
+    contract_crashes = []
     n_obl = n_dis = 0
     backends = {}
     solver_s = 0.0
@@ -314,7 +315,11 @@ def main(argv=None):
                   covers=out['covers'], covers_sat=out['covers_sat'], error=out['error'],
                   inlined_real_functions=out.get('inlined', []))
         if out.get('crash'):
-            checker_errors.append('%s: %s' % (out['cname'], out['error']))
+            # an exception inside the checker while analysing ONE contract (typically: edited code reaches a proxy / stub operation the
+            # engine does not implement).  Policy: a traceback is never a violation and never an alarm - the function is UNDECIDED, the
+            # bounded stand-in decides, the evidence level drops to `other` and the crash is listed in coverage.contract_crashes.
+            contract_crashes.append('%s: %s' % (out['cname'], out['error']))
+            degraded.append(dict(contract=out['cname'], obligation='(whole function)', why='checker crash, function undecided: ' + str(out['error']).splitlines()[0]))
         elif out['error']:
             degraded.append(dict(contract=out['cname'], obligation='(whole function)', why=out['error']))
         for r in out['results']:
@@ -355,7 +360,8 @@ def main(argv=None):
                 for f in b.get('failures', []):
                     bounded_fail.append((b, f))
         except Exception as e:
-            checker_errors.append('bounded stand-in crashed: %s: %s\n%s' % (type(e).__name__, e, traceback.format_exc()))
+            contract_crashes.append('bounded stand-in crashed: %s: %s\n%s' % (type(e).__name__, e, traceback.format_exc()))
+            degraded.append(dict(contract='bounded', obligation='(bounded stand-in)', why='bounded stand-in crashed (undecided): %s: %s' % (type(e).__name__, e)))
 
     # 4. verdict lines
     rc = 0
@@ -441,7 +447,7 @@ def main(argv=None):
             assume_sites=dict(count=len(assume_sites), where=assume_sites[:400], note='every vc.assume( in this property\'s contract sources: library-spec facts at call sites, definitional extensions, explicit instances of verified or Lean-certified lemmas; listed mechanically, see TRUSTED_BASE for what they rest on'),
             vacuity=dict(covers=sum(o['covers'] for o in outs), covers_sat=sum(o['covers_sat'] for o in outs)),
             not_proved_clauses=list(getattr(mod, 'NOT_PROVED', [])),
-            degraded=degraded, known_findings=sorted({k['id'] for k, _ in known_hits}), fixed=fixed,
+            contract_crashes=contract_crashes, degraded=degraded, known_findings=sorted({k['id'] for k, _ in known_hits}), fixed=fixed,
             explanation=('proof: every obligation generated from the current source was discharged' if level == 'proof' else
                          'degraded or partially refuted run: see degraded / known_findings / violations; bounded stand-ins listed under bounded'),
         ),
